@@ -38,6 +38,7 @@ def step (st : St) (t : List String) : Option (St × String) :=
   | ["hnew", be] =>
       let (n, v) := if be == "vsbx2" then (2, true) else if be == "vsbx8" then (8, true) else (64, false)
       some ({ w := World.init n, vsbx := v, dead := false, brk := [16, 16, 16] }, "ok")
+  | ["hend"] => some (st, "ok")     -- end of a history: every created sandbox can be destroyed
   | _ =>
   if st.dead then
     match t with
